@@ -17,6 +17,7 @@ import (
 
 	"github.com/cube2222/octosql/config"
 	"github.com/cube2222/octosql/plugins/repository"
+	"github.com/cube2222/octosql/plugins/verifhook"
 )
 
 type PluginManager struct {
@@ -194,10 +195,12 @@ func (m *PluginManager) Install(ctx context.Context, name string, constraint *se
 	stagingDir := filepath.Join(pluginDir, ".installing-"+version.Number.String())
 	oldDir := filepath.Join(pluginDir, ".old-"+version.Number.String())
 
+	verifhook.CrashPoint("install:remove-staging")
 	if err := os.RemoveAll(stagingDir); err != nil {
 		return fmt.Errorf("couldn't remove old plugin staging directory: %w", err)
 	}
 
+	verifhook.CrashPoint("install:mkdir-staging")
 	if err := os.MkdirAll(stagingDir, os.ModePerm); err != nil {
 		return fmt.Errorf("couldn't create plugins directory: %w", err)
 	}
@@ -216,13 +219,15 @@ func (m *PluginManager) Install(ctx context.Context, name string, constraint *se
 		}
 		defer res.Body.Close()
 
+		verifhook.CrashPoint("install:create-archive")
 		f, err := os.Create(archiveFilePath)
 		if err != nil {
 			return fmt.Errorf("couldn't create plugin archive file: %w", err)
 		}
 		defer f.Close()
 
-		if _, err := io.Copy(f, res.Body); err != nil {
+		verifhook.CrashPoint("install:download-archive")
+		if _, err := io.Copy(f, verifhook.TearReader("install:download-archive", res.Body)); err != nil {
 			return fmt.Errorf("couldn't download plugin archive: %w", err)
 		}
 		return nil
@@ -231,26 +236,32 @@ func (m *PluginManager) Install(ctx context.Context, name string, constraint *se
 		return err
 	}
 
+	verifhook.CrashPoint("install:unarchive")
 	if err := archiver.NewTarGz().Unarchive(archiveFilePath, stagingDir); err != nil {
 		return fmt.Errorf("couldn't unarchive plugin archive: %w", err)
 	}
 
+	verifhook.CrashPoint("install:remove-archive")
 	if err := os.Remove(archiveFilePath); err != nil {
 		return fmt.Errorf("couldn't remove plugin archive: %w", err)
 	}
 
+	verifhook.CrashPoint("install:remove-old")
 	if err := os.RemoveAll(oldDir); err != nil {
 		return fmt.Errorf("couldn't remove old plugin directory: %w", err)
 	}
+	verifhook.CrashPoint("install:move-old-aside")
 	if _, err := os.Stat(newPluginDir); err == nil {
 		// This version is already installed, move it out of the way.
 		if err := os.Rename(newPluginDir, oldDir); err != nil {
 			return fmt.Errorf("couldn't move old plugin directory: %w", err)
 		}
 	}
+	verifhook.CrashPoint("install:move-into-place")
 	if err := os.Rename(stagingDir, newPluginDir); err != nil {
 		return fmt.Errorf("couldn't move plugin into place: %w", err)
 	}
+	verifhook.CrashPoint("install:remove-moved-old")
 	if err := os.RemoveAll(oldDir); err != nil {
 		return fmt.Errorf("couldn't remove old plugin directory: %w", err)
 	}
